@@ -1,9 +1,10 @@
 """A custom operator WITHOUT type-inference / value-propagation hooks: its output is an untyped Var.
 (No `from __future__ import annotations` here: spox reads the dataclass field types at class creation.)"""
 import warnings
-from dataclasses import dataclass
+from dataclasses import dataclass, field
 
 from spox import Var
+from spox._attributes import AttrFloat32, AttrString
 from spox._fields import BaseAttributes, BaseInputs, BaseOutputs
 from spox._node import Node, OpType
 
@@ -43,6 +44,32 @@ class Twice(Node):
     @dataclass
     class Attributes(BaseAttributes):
         pass
+
+    @dataclass
+    class Inputs(BaseInputs):
+        X: Var
+
+    @dataclass
+    class Outputs(BaseOutputs):
+        Y: Var
+
+    def infer_output_types(self):
+        return {"Y": self.inputs.X.type} if self.inputs.X.type is not None else {}
+
+    attrs: Attributes
+    inputs: Inputs
+    outputs: Outputs
+
+
+class Scaled(Node):
+    """A user-defined operator whose declared attributes have DEFAULTS (alpha = 1.5, mode = "fast"): constructed with explicit attributes
+    or with ``attrs`` left out (``Node.__init__`` then instantiates ``Attributes()``), the defaults are emitted under their names."""
+    op_type = OpType("Scaled", "verif.c18fix", 3)
+
+    @dataclass
+    class Attributes(BaseAttributes):
+        alpha: AttrFloat32 = field(default_factory=lambda: AttrFloat32(1.5, "alpha"))
+        mode: AttrString = field(default_factory=lambda: AttrString("fast", "mode"))
 
     @dataclass
     class Inputs(BaseInputs):
